@@ -160,6 +160,9 @@ class NPTH(Harness):
         self.state0 = self.L0
         self.frac = np.array([[0.2, 0.3, 0.4], [0.6, 0.1, 0.7], [0.8, 0.8, 0.2]])[:n]
         self.with_disp = with_disp
+        if with_disp:  # the state is then (cell, positions): only the non-edge layers apply
+            self.edgewise = False
+            self.expand_limit = 12
 
     def set_state(self, sysm, s):
         from quansino.operations.cell import IsotropicDeformation
@@ -208,6 +211,11 @@ class GCH(Harness):
         self.spec = dict(ens="GrandCanonical", atoms="A0", table=table, T=T, mu=self.mu, calc="zero")
         self.state0 = np.zeros((0, 3))
         self.with_disp = with_disp
+        if with_disp:
+            # displaced particles leave the lattice of insertion sites: the edge-wise layer (which
+            # needs the lattice target) does not apply; conformance, update and Markov layers do
+            self.edgewise = False
+            self.expand_limit = 12
 
     def set_state(self, sysm, s):
         from ase.atoms import Atoms
@@ -335,6 +343,9 @@ def enumerate_kernel(h: Harness, state, policy, depth=1):
 
 
 def explore_harness(arg):
+    import time
+
+    t_start = time.time()
     h = make_harness(arg)
     policy = Policy(**h.policy)
     counters = {"executions": 0, "transitions_checked": 0, "nontrivial": 0, "markov_comparisons": 0, "db_edges": 0}
@@ -526,7 +537,7 @@ def explore_harness(arg):
     return {
         "counters": {**counters, "states": total_states, "edges": G.number_of_edges()},
         "violations": viol,
-        "samples": [{"harness": h.name, "expanded_states": total_states, "edges": G.number_of_edges(), "stationary": stationary, "closed_chain_completed": stationary is not None}],
+        "samples": [{"harness": h.name, "expanded_states": total_states, "edges": G.number_of_edges(), "stationary": stationary, "closed_chain_completed": stationary is not None, "seconds": round(time.time() - t_start, 1)}],
         "sets": {"harness": [h.name]},
     }
 
@@ -652,7 +663,7 @@ def harness_args(tier):
     a.append({"kind": "npt", "n": 2, "kmax": 3})
     if tier == "thorough":
         a.append({"kind": "harmonic", "n": 1, "op": "sphere", "depth": 2})
-        a.append({"kind": "harmonic", "n": 1, "op": "ballbox", "depth": 1, "markov": False})
+        a.append({"kind": "harmonic", "n": 1, "op": "ballbox", "depth": 1, "markov_reps": 1, "expand_limit": 6})
         a.append({"kind": "harmonic", "n": 2, "op": "box", "depth": 1})
         a.append({"kind": "harmonic", "n": 2, "op": "box*2", "depth": 1, "table": [["d", "D_box*2"]], "markov_reps": 2, "expand_limit": 4})
         a.append({"kind": "dipole", "x": 0.5})
